@@ -259,7 +259,9 @@ extract_args(vector_string &args, const string &expr, size_t &p) const {
         p++;
       }
     }
-    p++;
+    if (p < expr.size()) {
+      p++;
+    }
   }
   else {
     // Skip paren.
@@ -304,7 +306,10 @@ extract_args(vector_string &args, const string &expr, size_t &p) const {
           q++;
         }
       }
-      p++;
+      if (p < expr.size()) {
+        // (An unterminated literal leaves us at the end already.)
+        p++;
+      }
     }
     {
       // Back up to strip any trailing whitespace.
